@@ -45,7 +45,7 @@ def run(ctx):
         return lambda: vlib.replay(ctx, "cafs", beh, name, args + ["--seed", str(seed)])
 
     alt = [
-        ["--leaf", "65", "--style", "read", "--boundary", "--reads", "light"],
+        ["--leaf", "65", "--style", "readeof", "--boundary", "--reads", "light"],
         ["--leaf", "96", "--style", "read", "--crc", "--prefetch", "1", "--reads", "light"],
         ["--leaf", "64", "--style", "writeto", "--boundary", "--crc", "--cache1", "--reads", "light"],
         ["--leaf", "4096", "--style", "writeto", "--prefetch", "2", "--cache1", "--reads", "light"],
